@@ -182,26 +182,7 @@ func (c *Ctx) checkRetryCallbacks(r *Report, rule, rel string, senders map[*ssa.
 				ctor = ctor.Parent()
 			}
 			// the callback: closure literal or bound method
-			var cb *ssa.Function
-			cbArg := call.Call.Args[3]
-			for {
-				if ct, ok := cbArg.(*ssa.ChangeType); ok {
-					cbArg = ct.X
-					continue
-				}
-				break
-			}
-			switch x := cbArg.(type) {
-			case *ssa.MakeClosure:
-				cb, _ = x.Fn.(*ssa.Function)
-				if cb != nil && strings.Contains(cb.Synthetic, "bound method wrapper") {
-					if fn, ok := cb.Object().(*types.Func); ok {
-						cb = c.Prog.FuncValue(fn)
-					}
-				}
-			case *ssa.Function:
-				cb = x
-			}
+			cb := c.retryCallbackOf(call)
 			n++
 			r.fn(ctor)
 			key := fnKey(ctor) + ":retry-callback"
